@@ -374,7 +374,9 @@ def run(tier, seed):
              "AddressAg (plain or group with members), member in member, member in AddrGroup; operands from every "
              "pair TLC prints in MC_AddrObj_gen (27 wildcards over 3 bits + 5 groups) embedded through address "
              "windows and spelled in every (thorough) / one random (quick) native or foreign spelling on both "
-             "platforms, plus seeded random 32-bit pairs derived by single-bit edits; non-trivial = the two operand "
+             "platforms, plus seeded random 32-bit pairs derived by single-bit edits, a non-contiguous wildcard against a "
+             "group of all / all but one / the two extreme / some of its pieces, and members that referenced another group "
+             "(with members loaded) before they got their present text; non-trivial = the two operand "
              "texts differ; distinct = distinct (query, class, platform, texts, members)",
         samples=[dict(job=jobs[i], events=ev_lists[i]) for i in (0, len(jobs) // 2, len(jobs) - 1)],
         model_checking=mcs, generation=gen, trace_validation=vstats, exhaustive=False,
